@@ -8,7 +8,7 @@ from props import c02, frames
 
 OPS = ["aggregate", "count", "split", "gmodify", "helper"]
 HELPERS = ["count", "sum", "mean", "min", "max", "first", "last", "median", "mode", "nth", "std", "var",
-           "quantile", "any", "all", "count_unique"]
+           "quantile", "any", "all", "count_unique", "std1", "std2", "var1", "var2"]
 
 
 def _rec_ids(x):
@@ -17,16 +17,21 @@ def _rec_ids(x):
 
 def _rec_mask(x):
     # grouped modify broadcasts the function's result over the group's rows; a string longer than 15 bytes
-    # would crash NumPy 2.0.2's ndarray.repeat (environment defect), so the ids are packed into an int
+    # would crash NumPy 2.0.2's ndarray.repeat (environment defect), so the ids are packed into a number.
+    # Single-row groups return an int, larger groups a float with fraction .5 (group-wise results of different
+    # dtypes must be promoted, not cast to the first group's dtype).
     m = 0
     for v in x.r:
         m |= 1 << int(v)
-    return m
+    return m if x.nrow == 1 else m + 0.5
 
 
 def _parse_mask(m):
-    m = int(m)
-    return [2 * i for i in range(64) if m >> i & 1]
+    ids = [2 * i for i in range(64) if int(m) >> i & 1]
+    frac = float(m) - int(m)
+    if (len(ids) == 1) != (frac == 0.0):
+        return [gamma.ALIEN]            # the value lost (or gained) its fraction: not the function's result for this group
+    return ids
 
 
 def _parse_ids(s):
@@ -35,6 +40,9 @@ def _parse_ids(s):
 
 
 def _helper_pair(di, name):
+    if name in ("std1", "std2", "var1", "var2"):
+        f, dd = getattr(di, name[:3]), int(name[3])
+        return f("x", ddof=dd), (lambda d: f(d.x, ddof=dd))
     if name == "count":
         return di.count(), (lambda d: d.nrow)
     if name == "nth":
@@ -110,7 +118,7 @@ def sig_of(rec, pals):
     return s
 
 
-def run(ctx):
+def _run_single(ctx):
     quick = ctx.tier == "quick"
     maxrows, cells = (3, [0, 2, 4]) if quick else (3, [0, 2, 3, 4])
     frs, args = c02.generate(ctx, "group", maxrows, cells)
@@ -136,6 +144,18 @@ def run(ctx):
                     opcount[op] = opcount.get(op, 0) + 1
                     ctx.count((repr(fr), repr(a["by"]), op, helper, pals["k"].name, pals["j"].name),
                               frames.nontrivial(fr, a["by"]))
+    # twins: -0.0 next to 0.0 form one group (float/inf palette in both group columns)
+    for fr in frs:
+        if len(fr["cell"]["k"]) < 2 or (2 not in fr["cell"]["k"] and 2 not in fr["cell"]["j"]) or (quick and rng.random() < 0.7):
+            continue
+        tw = frames.with_twins(rng, fr)
+        pals = {"k": gamma.FLOAT_INF, "j": gamma.FLOAT_INF, "r": frames.ROWID}
+        a = {"op": "group", "by": rng.choice([["k"], ["j"], ["k", "j"]])}
+        for op in ("aggregate", "count", "split", "gmodify"):
+            records.append(execute(tw, a, pals, op, None))
+            meta.append(pals)
+            opcount["twin:" + op] = opcount.get("twin:" + op, 0) + 1
+            ctx.count((repr(tw), repr(a["by"]), op, "twin"), True)
     # record -> validate: larger random frames (4..24 rows) so that size-dependent sort kernels are reached
     for _ in range(150 if quick else 1500):
         n = rng.randint(4, 24)
@@ -168,6 +188,12 @@ def run(ctx):
                 % (maxrows, cells, "one random tuple per frame" if quick else "all tuples, 3 palette draws"))
     ctx.assumptions += ["helper-vs-lambda equality uses isclose(rel 1e-9) and is evaluated with USE_NUMBA = False (C08 owns the Numba path)",
                         "abstraction alpha trusts Python scalar ==, <, isnan, isnat"]
+
+
+def run(ctx):
+    _run_single(ctx)
+    from props import c01
+    c01.histories_for(ctx, "C04", 300 if ctx.tier == "quick" else 4000)
 
 
 def replay(ctx, rp):
